@@ -121,6 +121,17 @@ fn do_negotiate(c: &Value, w: &mut Out) {
     let avail: Vec<Dyn> = c["avail"].as_array().unwrap().iter().map(|t| Dyn(dyn_index(t.as_str().unwrap()))).collect();
     let leaked: &'static [Dyn] = Box::leak(avail.clone().into_boxed_slice());
     *CURRENT.lock().unwrap() = (leaked, avail[0].0);
+    {
+        // the enum generated for this crate's own project (its manifest does not list the default locale among `locales`)
+        use leptos_i18n::Locale as _;
+        for req in [vec![], vec!["tlh".to_string()], vec!["not a tag".to_string(), "xx-YY".to_string()]] {
+            let chosen = match run_caught(|| i18n::Locale::find_locale(&req)) {
+                Ok(l) => json!(l.as_str()),
+                Err(_) => json!("PANIC"),
+            };
+            w.emit(&json!({"ev": "Negotiate", "case": id, "api": "generated enum, no match", "req": req, "chosen": chosen}));
+        }
+    }
     for req in c["reqs"].as_array().unwrap() {
         let tags: Vec<String> = req.as_array().unwrap().iter().map(|t| t.as_str().unwrap().to_string()).collect();
         let r = run_caught(|| Dyn::find_locale(&tags));
